@@ -45,7 +45,7 @@ Layout gen_layout(Tape& t, unsigned serial) {
 		std::vector<std::string> names;
 		for (unsigned k = 0; k < nm; ++k) {
 			std::string n = pool[t.below(poolN)];
-			if (!a.isVol) { n = n.substr(0, n.find('.')); if (n.size() > 8) n.resize(8); if (n.empty()) continue; }
+			if (!a.isVol) { if (t.below(3) != 0) n = n.substr(0, n.find('.')); if (n.size() > 8) n.resize(8); if (n.empty()) continue; }   // one clump member in three keeps a dot in its name (packing 'a.txt.wav' gives the member 'a.txt'): it has an extension like any other name
 			bool clash = false; for (auto& e : names) if (dups ? false : refvol::ieq(e, n)) clash = true;
 			if (!clash) names.push_back(n);
 		}
